@@ -258,6 +258,34 @@ for fn, nm in (("_skinny128_parallel_encrypt_vec128", "v128p_enc"), ("_skinny128
     d = pe(V128, fn, f"{nm}_store", "seg", 1, [], P, ["output"], rows); d["veclanes"] = "explicit"; vp.append(d)
 mods.append({"name": "Vec128Pieces", "entries": vp})
 
+# ---------------------------------------------------------------- vector back end: Skinny-128 parallel ECB, 256-bit vectors
+V256 = "src/skinny128-parallel-vec256.c"; AVX = ["-mavx2"]
+vl = [e(V256, "skinny128_sbox_four", "v256p_sbox", AVX, 8, {"u": LW, "v": LW0, "s": LW0, "t": LW0}),
+      e(V256, "skinny128_inv_sbox_four", "v256p_inv_sbox", AVX, 8, {"u": LW, "v": LW0, "s": LW0, "t": LW0})]
+mods.append({"name": "Vec256Leaf", "entries": vl})
+vp = []
+for fn, nm in (("_skinny128_parallel_encrypt_vec256", "v256p_enc"), ("_skinny128_parallel_decrypt_vec256", "v256p_dec")):
+    P = {"output": {"bytes": 128, "out": True}, "input": {"bytes": 128}}
+    rows = ["row0", "row1", "row2", "row3"]
+    d = pe(V256, fn, f"{nm}_load", "seg", 0, AVX, P, rows); d["veclanes"] = "explicit"; vp.append(d)
+    vp.append(pe(V256, fn, f"{nm}_round", "loop", 0, AVX, P, rows, rows + ["schedule_0"]))
+    d = pe(V256, fn, f"{nm}_store", "seg", 1, AVX, P, ["output"], rows); d["veclanes"] = "explicit"; vp.append(d)
+mods.append({"name": "Vec256Pieces", "entries": vp})
+
+# ---------------------------------------------------------------- vector back end: Skinny-64 parallel ECB, 128-bit vectors (8 blocks)
+V64 = "src/skinny64-parallel-vec128.c"
+vl = [e(V64, "skinny64_sbox", "v64p_sbox", [], 4, {"x": LW}, "direct"),
+      e(V64, "skinny64_inv_sbox", "v64p_inv_sbox", [], 4, {"x": LW}, "direct")]
+mods.append({"name": "Vec64Leaf", "entries": vl})
+vp = []
+for fn, nm in (("_skinny64_parallel_encrypt_vec128", "v64p_enc"), ("_skinny64_parallel_decrypt_vec128", "v64p_dec")):
+    P = {"output": {"bytes": 64, "out": True}, "input": {"bytes": 64}}
+    rows = ["row0", "row1", "row2", "row3"]
+    d = pe(V64, fn, f"{nm}_load", "seg", 0, [], P, rows); d["veclanes"] = "explicit"; vp.append(d)
+    vp.append(pe(V64, fn, f"{nm}_round", "loop", 0, [], P, rows, rows + ["schedule_0"]))
+    d = pe(V64, fn, f"{nm}_store", "seg", 1, [], P, ["output"], rows); d["veclanes"] = "explicit"; vp.append(d)
+mods.append({"name": "Vec64Pieces", "imports": ["Vec64Leaf"], "entries": vp})
+
 # ---------------------------------------------------------------- counters
 mods.append({"name": "CounterLeaf", "entries": [
     e(S128, "skinny128_inc_counter", "skinny128_inc_counter", [], None, {"counter": {"bytes": 16}}),
